@@ -7,12 +7,14 @@
 mod c01;
 mod c02;
 mod c03;
+mod c06;
 mod c07;
 mod c08;
 mod c09;
 mod c11;
 mod c12;
 mod c17;
+mod cli;
 mod driver;
 mod dump;
 mod exec;
@@ -38,6 +40,7 @@ fn property(id: &str) -> Option<Box<dyn Property>> {
         "C01" => Box::new(c01::C01::new()),
         "C02" => Box::new(c02::C02::new()),
         "C03" => Box::new(c03::C03::new()),
+        "C06" => Box::new(c06::C06::new()),
         "C07" => Box::new(c07::C07::new()),
         "C08" => Box::new(c08::C08::new()),
         "C09" => Box::new(c09::C09::new()),
